@@ -29,7 +29,7 @@ fn kid(k: &[u8]) -> u32 {
 fn wb_run(report: &mut Report, seed: u64, rid: u64, dir: &str) {
     let mut rng = Rng::derive(seed, rid, 0x3b);
     let cpus = [2usize, 4, 6, 8, 10, 12, 14, 16][(rid % 8) as usize];
-    let pattern = (rid / 8) % 6; // 0 small burst, 1 buffer-filling burst, 2 overwrite/delete of durable keys, 3 busy neighbour, 4 swept TTL keys, 5 retirements deferred by readers
+    let pattern = (rid / 8) % 7; // 6 = a write after seconds of idleness; 0 small burst, 1 buffer-filling burst, 2 overwrite/delete of durable keys, 3 busy neighbour, 4 swept TTL keys, 5 retirements deferred by readers
     let mut cfg = Cfg::disk(16 + 16384);
     cfg.cpus = cpus;
     cfg.cache = rng.chance(1, 2);
@@ -168,6 +168,76 @@ fn wb_run(report: &mut Report, seed: u64, rid: u64, dir: &str) {
         report.count("runs", 1);
         report.count(&format!("runs_shards_{shards}"), 1);
         report.count("runs_pattern_4", 1);
+        hub().unwatch(&mon);
+        drop(store);
+        let _ = std::fs::remove_file(&path);
+        return;
+    }
+    if pattern == 6 {
+        // a store that has been idle for seconds, then one write and one delete: the flush interval is a
+        // property of the store, not of how recently it was used. The time until both are durable is judged
+        // against a generous bound (2.5 s against the documented 100 ms interval), and only if a probe thread
+        // shows that the machine itself was responsive meanwhile
+        for i in 0..16 {
+            put(&store, &mut model, format!("wb-{i:05}").into_bytes(), 100);
+        }
+        if let Err((sig, msg)) = wait_drained(&store, "initial fill") {
+            if sig == "wb:slow" {
+                report.inconclusive.push(msg);
+            } else {
+                report.violation(sig, msg, replay.clone());
+            }
+            return;
+        }
+        std::thread::sleep(Duration::from_millis(3200 + rng.range(0, 600)));
+        let stop = Arc::new(AtomicBool::new(false));
+        let probe = {
+            let stop = stop.clone();
+            std::thread::spawn(move || {
+                let mut worst = 0u128;
+                while !stop.load(Ordering::Relaxed) {
+                    let t = Instant::now();
+                    std::thread::sleep(Duration::from_millis(5));
+                    worst = worst.max(t.elapsed().as_millis().saturating_sub(5));
+                }
+                worst
+            })
+        };
+        put(&store, &mut model, b"wb-late".to_vec(), 200);
+        store.delete(b"wb-00003").expect("delete");
+        model.remove(b"wb-00003".as_slice());
+        let t0 = Instant::now();
+        let mut durable_after = None;
+        while t0.elapsed() < Duration::from_secs(12) {
+            let p = store.verif_pending().unwrap();
+            if store.verif_entry(b"wb-late").is_some_and(|e| e.sector > 0) && p.shard_queued.iter().sum::<usize>() == 0 && p.retirements == 0 {
+                durable_after = Some(t0.elapsed().as_secs_f64());
+                break;
+            }
+            std::thread::sleep(Duration::from_millis(5));
+        }
+        stop.store(true, Ordering::Relaxed);
+        let worst_oversleep_ms = probe.join().unwrap_or(10_000);
+        report.evaluations += 1;
+        report.count("runs", 1);
+        report.count("runs_pattern_6", 1);
+        report.count(&format!("runs_shards_{shards}"), 1);
+        match durable_after {
+            Some(s) => {
+                report.max("max_after_idle_durable_ms", (s * 1000.0) as u64);
+                if s > 2.5 && worst_oversleep_ms < 250 {
+                    report.violation(
+                        "wb:late-after-idle",
+                        format!("a write and a delete accepted after {:.1} s of idleness became durable only after {s:.2} s without any flush (flush interval 100 ms; the machine was responsive: worst scheduling delay of a probe thread {worst_oversleep_ms} ms)", 3.2),
+                        replay.clone(),
+                    );
+                } else {
+                    report.nontrivial.insert(fnv_mix(fnv_mix(shards as u64, pattern), (s * 10.0) as u64));
+                }
+            }
+            None if worst_oversleep_ms < 250 => report.violation("wb:stuck", "a write accepted after seconds of idleness was still not durable 12 s later, without any flush, on a responsive machine".to_string(), replay.clone()),
+            None => report.inconclusive.push("after-idle write not durable within 12 s, but the machine was not responsive".into()),
+        }
         hub().unwatch(&mon);
         drop(store);
         let _ = std::fs::remove_file(&path);
@@ -395,7 +465,7 @@ fn wb_run(report: &mut Report, seed: u64, rid: u64, dir: &str) {
     if let Err((sig, msg)) = layout::check_partition(&snap, 3, &[]) {
         report.violation(format!("wb:{sig}"), msg, replay.clone());
     }
-    let pattern_name = ["small burst", "buffer-filling burst", "overwrite/delete of durable keys", "busy neighbour", "swept ttl keys", "deferred retirements"][pattern as usize];
+    let pattern_name = ["small burst", "buffer-filling burst", "overwrite/delete of durable keys", "busy neighbour", "swept ttl keys", "deferred retirements", "write after idleness"][pattern as usize];
     if report.samples.len() < 2 {
         report.sample(json!({"run": rid, "cpus": cpus, "shards": shards, "pattern": pattern_name, "keys": nkeys, "shard_occupancy_at_last_return": occupancy, "target_durable_s": target_latency, "trace_events": events.len()}));
     }
@@ -986,7 +1056,7 @@ pub fn run(args: &Args) -> Report {
     let mut report = Report::new(
         "live",
         if mode == "wb" {
-            "write-behind without any explicit flush on stores built with 1..8 shards/workers (CPU visibility 2..16), six patterns (small burst touching every shard; buffer-filling burst >=1024 entries per shard; overwrite/delete of already durable keys; idle vs busy neighbouring keys; TTL keys removed by the sweeper only; retirements deferred by readers parked inside reads of the old generations, then nobody writes): after the last call returns the engine only polls the pending-work accessor and the device trace; pending work must reach zero, every accepted write must have an extent, the durable prefix of the trace must recover to exactly the accepted state, superseded generations must be retired (independent decode) and the data area must be exactly partitioned. A stall needs 10 s without drain AND 5 s without device activity. distinct = (shard count, pattern, trace size class)"
+            "write-behind without any explicit flush on stores built with 1..8 shards/workers (CPU visibility 2..16), seven patterns (small burst touching every shard; buffer-filling burst >=1024 entries per shard; overwrite/delete of already durable keys; idle vs busy neighbouring keys; TTL keys removed by the sweeper only; retirements deferred by readers parked inside reads of the old generations, then nobody writes; one write and one delete after more than 3 s of complete idleness, judged against 2.5 s on a machine a probe thread shows to be responsive): after the last call returns the engine only polls the pending-work accessor and the device trace; pending work must reach zero, every accepted write must have an extent, the durable prefix of the trace must recover to exactly the accepted state, superseded generations must be retired (independent decode) and the data area must be exactly partitioned. A stall needs 10 s without drain AND 5 s without device activity. distinct = (shard count, pattern, trace size class)"
         } else {
             "contention scenarios, each in its own process under a 90 s watchdog whose expiry is judged by a stall signature (no thread consumed CPU for 2 s and none runnable): (0) 2-8 concurrent flush() callers + writers/deleters/readers/scanners on 6 hot keys with 3 ms delays injected at one flusher phase per run; (1) flush racing drop where the flusher thread or the 1 ms TTL sweeper holds the last reference; (2) a 24-block device filled beyond capacity, flushes while full, then deletes + flush must succeed; (3) persistent I/O failure from a seeded call on, 3 threads keep writing/deleting/flushing, then drop with the device still failing; (4) only record-data writes fail while 4 threads update/delete/flush durable keys on 2-8 workers with delays at the journal/data/marker/release points (failed-batch scrub racing retirements), then the device heals; (5) mid-call disturbances: at the scheduling points inside increment / compare-and-swap / JSON patch / insert-if-absent / update_ttl / insert on a key private to the calling thread, the key is replaced by a 1 s TTL generation and the clock jumps past its expiry, or it just expires, or is deleted or replaced - the call must return (a call that burns 20 s of its own thread's CPU time without returning is a livelock). distinct = (scenario, run)"
         },
